@@ -44,3 +44,13 @@ register(
     undecided_clauses=[],
 )
 LEVEL_TEXT["C10"] = "in progress"
+
+register(
+    "C03",
+    modules=["contracts.c16", "contracts.node_getters", "contracts.node_decisions"],
+    level="proof",
+    explanation="run decision, retry budget clause, placeholder accounting",
+    trusted=[],
+    undecided_clauses=[],
+)
+LEVEL_TEXT["C03"] = "in progress"
